@@ -2,6 +2,38 @@
    [exact lemma] and Print Assumptions. *)
 From V Require Import Common.Base C01.Utf C01.Quote C01.SpecLiteral C01.QuoteProofs.
 
-Theorem hex_digit_roundtrip : forall d, 0 <= d < 16 -> hexval (hexc d) = Some d.
-Proof. exact hexc_hexval. Qed.
-Print Assumptions hex_digit_roundtrip.
+(* printQuotedUTF16: for EVERY sequence of UTF-16 code units (lone surrogates
+   included), every configuration (charset, unicode-escape support,
+   inline-script guard, line limit and wrapping column, minify-syntax quote
+   cost, template support, backtick allowed or not), the bytes printed are a
+   string literal / no-substitution template whose ECMA-262 String Value /
+   Template Value is exactly the input sequence. *)
+Theorem quote_roundtrip : forall cfg allow_backtick nowrap prefix u,
+  all_u16 u -> literal_value (print_quoted cfg allow_backtick nowrap prefix u) = Some u.
+Proof. exact quote_roundtrip_all. Qed.
+Print Assumptions quote_roundtrip.
+
+(* printUnquotedUTF16 between any of the three quote characters (this is how
+   template literals and PreferTemplate strings are printed) *)
+Theorem unquoted_roundtrip : forall cfg k nowrap prefix u,
+  all_u16 u ->
+  literal_value (quote_of k :: print_unquoted cfg (quote_of k) nowrap prefix u ++ [quote_of k]) = Some u.
+Proof. exact unquoted_roundtrip_all. Qed.
+Print Assumptions unquoted_roundtrip.
+
+(* ASCII charset: every output byte is below 128 *)
+Theorem quote_ascii : forall cfg allow_backtick nowrap prefix u,
+  ascii_only cfg = true -> all_u16 u ->
+  Forall (fun b => 0 <= b < 128) (print_quoted cfg allow_backtick nowrap prefix u).
+Proof. exact quote_ascii_all. Qed.
+Print Assumptions quote_ascii.
+
+(* the output never contains a raw CR, U+2028 or U+2029, and contains a raw
+   LF only inside a template or as the escaped newline of line wrapping *)
+Theorem quote_no_raw_line_terminator : forall cfg k nowrap prefix u,
+  all_u16 u ->
+  let nolf := negb (quote_of k =? 96) && negb ((0 <? line_limit cfg) && negb nowrap) in
+  exists cps, utf8_decode (print_unquoted cfg (quote_of k) nowrap prefix u) = Some cps /\
+              Forall (no_lt nolf) cps.
+Proof. exact quote_no_raw_lt_all. Qed.
+Print Assumptions quote_no_raw_line_terminator.
